@@ -320,7 +320,7 @@ def plan(tier, rng, sl, nslices, stats):
             yield {"kind": "fst", "t": c}
         elif k == 3:
             c = gcfg.random_case(rng, max_vars=3, max_terms=3, max_prods=6, max_body=3,
-                                 vcs=["str", "lower", "lower", "odd", "clash", "lowerclash"], p_eps=rng.choice([0, 0.2]))
+                                 vcs=["str", "lower", "lower", "odd", "clash", "lowerclash", "epsvar"], p_eps=rng.choice([0, 0.2]))
             yield {"kind": "cfg", "g": c}
         elif k == 4:
             ast = rs.gen_ast(rng, rng.choice([1, 2, 3]), escaped=0)
@@ -437,6 +437,12 @@ def run_case(c, stats):
         call(RecursiveAutomaton.from_regex, r, c["start"])
         return True
     from pyformlang.rsa import RecursiveAutomaton
-    call(RecursiveAutomaton.from_ebnf, c["text"], c["start"])
+    ok, rsa1 = call(RecursiveAutomaton.from_ebnf, c["text"], c["start"])
+    if ok and len(c["text"]) % 2 == 0:
+        # the boxes handed out belong to the caller: their automata are edited and the text is read again
+        for box in list(rsa1.boxes.values()):
+            for s_ in list(box.dfa.states):
+                call(box.dfa.add_final_state, s_)
     call(RecursiveAutomaton.from_ebnf, c["text"])
+    call(RecursiveAutomaton.from_ebnf, c["text"], c["start"])
     return True
